@@ -1221,7 +1221,10 @@ class Unit:
             "emitted_as": opts.get("name"),
             "decl": it["body"] is None and not ext_body,
             "new_calls": new_calls,
+            "unchanged": SHAPES.get(key_, {}).get("sha") == sha_,
         })
+        self.fn_sha_seen = getattr(self, "fn_sha_seen", {})
+        self.fn_sha_seen[key_] = sha_
 
     # ------------------------------------------------------------------
     def process(self, tplpath, depth=0):
@@ -1483,6 +1486,30 @@ class Unit:
                 done.append((ty, fn))
                 continue
             if neigh is None:
+                # no place to put it (e.g. a free function in a file from which only methods are under contract): it is rendered only to be
+                # inlined at its call sites (R31); if it cannot be inlined the callers do not compile and are demoted
+                if x.get("trait_impl") or (relfile, pth) in self.demote:
+                    continue
+                before = len(self.segs)
+                nfun = len(self.functions)
+                nvac0, nrw0 = len(self.vac_ids), len(self.rewrites)
+                try:
+                    self.do_fn(relfile, pth, {"tags": "", "novac": True}, {}, "auto-pull")
+                except (AnchorLost, Unsupported):
+                    del self.segs[before:]
+                    del self.functions[nfun:]
+                    del self.vac_ids[nvac0:]
+                    del self.rewrites[nrw0:]
+                    continue
+                del self.vac_ids[nvac0:]
+                sig_ = next((t for t, o in self.segs[before:] if isinstance(o, dict) and o.get("kind") == "sig"), None)
+                body_ = next((t for t, o in self.segs[before:] if isinstance(o, dict) and o.get("kind") == "body"), None)
+                del self.segs[before:]
+                del self.functions[nfun:]
+                if sig_ and body_:
+                    self.inline_only = getattr(self, "inline_only", [])
+                    self.inline_only.append({"fn": fn, "file": relfile, "path": pth, "sig": sig_, "body": body_})
+                    done.append((ty, fn))
                 continue
             before = len(self.segs)
             self.do_fn(relfile, pth, self._pull_opts(relfile, pth, neigh.get("opts_tags", "")), {}, "auto-pull")
@@ -1554,15 +1581,20 @@ def inline_pulled(u, pulled):
     body is replaced by the receiver.  Then the callers are verified against what the helper really does - an "extract function"
     refactoring verifies as before, a breaking change hidden behind a helper fails its caller's contract.  Helpers that do not qualify
     stay contract-less (their callers' failures are `needs contract`, undecided)."""
+    only = {e["fn"]: e for e in getattr(u, "inline_only", [])}
     for (ty, fn) in pulled:
-        frec = next((f for f in u.functions if "segs" in f and f["path"].split("#")[0].split("::")[-1] == fn and f.get("ext_body") is False), None)
-        if frec is None:
-            continue
-        a, b = frec["segs"]
-        sig = next((t for t, o in u.segs[a:b] if isinstance(o, dict) and o.get("kind") == "sig"), None)
-        body = next((t for t, o in u.segs[a:b] if isinstance(o, dict) and o.get("kind") == "body"), None)
-        if sig is None or body is None:
-            continue
+        if fn in only:
+            frec = {"file": only[fn]["file"], "path": only[fn]["path"], "src_line": 0}
+            sig, body = only[fn]["sig"], only[fn]["body"]
+        else:
+            frec = next((f for f in u.functions if "segs" in f and f["path"].split("#")[0].split("::")[-1] == fn and f.get("ext_body") is False), None)
+            if frec is None:
+                continue
+            a, b = frec["segs"]
+            sig = next((t for t, o in u.segs[a:b] if isinstance(o, dict) and o.get("kind") == "sig"), None)
+            body = next((t for t, o in u.segs[a:b] if isinstance(o, dict) and o.get("kind") == "body"), None)
+            if sig is None or body is None:
+                continue
         code = re.sub(r'//[^\n]*|/\*.*?\*/|"(?:\\.|[^"\\])*"', " ", body, flags=re.S)
         class _MS:
             def __init__(s_, g): s_.g = g
@@ -1627,6 +1659,7 @@ def inline_pulled(u, pulled):
                     n_inl += 1
                 if pos:
                     u.segs[si] = (out + t[pos:], o)
+                    f2["has_inlined"] = True
         if n_inl:
             u.rewrites.append({"rule": "R31", "file": frec["file"], "line": frec.get("src_line", 0),
                                "note": f"{frec['path']}: helper without a contract (pulled in by R25) inlined at {n_inl} call site(s)"})
@@ -1650,6 +1683,9 @@ def build(unit, outdir, vacuity=False, pulls=None, demote=None):
             f["calls_uncontracted"] = sorted(n for n in pnames if n != last and re.search(r"\b" + re.escape(n) + r"\s*\(", body))
     text, meta = u.finish()
     meta["pulled"] = [list(x) for x in pulled]
+    base_items = SHAPES.get("@items", {})
+    meta["items_changed"] = sorted(f"{i['file']}::{i['path']}" for i in u.items
+                                   if not i["file"].startswith("@") and base_items.get(f"{i['file']}::{i['path']}") not in (None, i["sha256"]))
     os.makedirs(outdir, exist_ok=True)
     suffix = "_vac" if vacuity else ""
     out_rs = os.path.join(outdir, f"{unit}{suffix}.rs")
